@@ -65,7 +65,7 @@ func c03Match(d *term.Term, vars []term.VarDecl, vals []interface{}, fe bool, go
 
 func c03(r *rep.Run) {
 	coreMax, richMax := 7, 6
-	r.SetBudget(100e9)
+	r.SetBudget(300e9)
 	if r.Thorough() {
 		coreMax, richMax = 8, 7
 		r.SetBudget(1500e9)
@@ -82,7 +82,7 @@ func c03(r *rep.Run) {
 	}
 	progs = withAliases(progs, aliasMax)
 	progs = withMerged(progs, 5)
-	progs = append(progs, loneLeafPrograms()...)
+	progs = append(loneLeafPrograms(), progs...)
 	r.Cov["programs_incl_alias_spellings"] = len(progs)
 	hs := harnesses(r.Workers)
 	opts := optMatrix(0, 1)
